@@ -14,6 +14,8 @@ enum {
     RC_PAT_MIN, RC_PAT_MAX, RC_PAT_MAX_STALE,
     RC_PAT_REFRESH_IMS, RC_PAT_OVERRIDE_EXPIRE, RC_PAT_OVERRIDE_LASTMOD, RC_PAT_RELOAD_INTO_IMS, RC_PAT_IGNORE_RELOAD,
     RC_CFG_REFRESH_ALL_IMS, RC_CFG_RELOAD_INTO_IMS, RC_CFG_MAX_STALE,
+    RC_CFG_MIN_EXPIRY,   /* Config.minimum_expiry_time (refreshIsCachable only) */
+    RC_BASE_CONTENT_LENGTH,   /* entry->mem_obj->baseReply().content_length (refreshIsCachable only) */
     RC_COUNT
 };
 #endif
